@@ -351,3 +351,9 @@ for _pid in ("C07", "C10"):
     PROPS[_pid].setdefault("tie_modules", []).append("LispModel.Tie.Waits")
 for _pid in ("C08", "C18"):
     PROPS[_pid].setdefault("tie_modules", []).append("LispModel.Tie.Reentries")
+for _pid in ("C08", "C12", "C18"):
+    PROPS[_pid].setdefault("tie_modules", []).append("LispModel.Tie.LimitsEval")
+for _pid in ("C05", "C06", "C16", "C19"):
+    PROPS[_pid].setdefault("tie_modules", []).append("LispModel.Tie.LimitsText")
+for _pid in ("C07", "C09"):
+    PROPS[_pid].setdefault("tie_modules", []).append("LispModel.Tie.LimitsConc")
